@@ -2,10 +2,10 @@ package main
 
 import (
 	"bytes"
-	"os"
 	"fmt"
 	"net/http"
 	"net/http/httptest"
+	"os"
 	"strings"
 	"sync"
 	"sync/atomic"
